@@ -224,6 +224,18 @@ def kw(**kwargs: int) -> dict[str, int]:
     return kwargs
 
 
+def kwo(*, a: int = 0) -> int:
+    return a
+
+
+def poskw(p: int, *, a: int = 0) -> tuple[int, int]:
+    return (p, a)
+
+
+def posonly(p: int, /, q: int = 0) -> tuple[int, int]:
+    return (p, q)
+
+
 class Box(Generic[T]):
     def __init__(self, v: T) -> None:
         self.v = v
@@ -659,6 +671,19 @@ F3_UNARY = [  # (label, body template on x)
     ("star-2", ["probe(1, star(x, x))"]),
     ("kw-1", ["probe(1, kw(k=x))"]),
     ("kw-splat", ['probe(1, kw(**{"k": x}))']),
+    ("kwo-splat", ["probe(1, kwo(*x))"]),
+    ("kwo-splat-1tuple", ["probe(1, kwo(*(x,)))"]),
+    ("kwo-kw", ["probe(1, kwo(a=x))"]),
+    ("poskw-splat-1tuple", ["probe(1, poskw(*(x,)))"]),
+    ("poskw-splat-2tuple", ["probe(1, poskw(*(x, x)))"]),
+    ("poskw-pos-kw", ["probe(1, poskw(x, a=x))"]),
+    ("poskw-splat-kw", ["probe(1, poskw(*(x,), a=x))"]),
+    ("posonly-pos-kw", ["probe(1, posonly(x, q=x))"]),
+    ("posonly-kw-p", ["probe(1, posonly(p=x))"]),
+    ("posonly-splat-2tuple", ["probe(1, posonly(*(x, x)))"]),
+    ("dflt-splat-1tuple", ["probe(1, dflt(*(x,)))"]),
+    ("dflt-dsplat", ['probe(1, dflt(**{"x": x}))']),
+    ("star-splat-tuple-kw", ["probe(1, star(*(x, x)))"]),
     ("Box", ["b = Box(x)", "probe(1, b)", "probe(2, b.get())", "probe(3, b.v)"]),
     ("Box-annot", ["b: Box[object] = Box(x)", "probe(1, b.get())"]),
     ("call-x0", ["probe(1, x())"]),
@@ -743,6 +768,26 @@ F6_TEMPLATES: list[tuple[str, list[list[str]], list[str]]] = [
       "    probe(2, y)"]),
     ("match", [ACT, ACT, ACT],
      ["match x:", "    case None:", "        {0}", '    case 0 | "":', "        {1}", "    case _:", "        {2}"]),
+    # two nested exception frames: the exception raised by chk(x) is NOT handled by the inner construct and lands
+    # in the outer handler / finally with whatever the inner body assigned
+    ("try-in-try", [ACT, ACT, ACT],
+     ["try:", "    try:", "        {0}", "        chk(x)", "        {1}", "    except KeyError:", "        probe(3, y)",
+      "except ValueError:", "    probe(2, y)", "    {2}"]),
+    ("tryfinally-in-try", [ACT, ACT_FIN, ACT],
+     ["try:", "    try:", "        {0}", "        chk(x)", "    finally:", "        probe(3, y)", "        {1}",
+      "except ValueError:", "    probe(2, y)", "    {2}"]),
+    ("with-in-try", [ACT, ACT, ACT],
+     ["try:", "    with NoSup():", "        {0}", "        chk(x)", "        {1}", "except ValueError:",
+      "    probe(2, y)", "    {2}"]),
+    ("withsup-in-try", [ACT, ACT, ACT],
+     ["try:", "    with Sup():", "        {0}", "        chk(x)", "        {1}", "    probe(3, y)", "except ValueError:",
+      "    probe(2, y)", "    {2}"]),
+    ("try-in-tryfinally", [ACT, ACT, ACT_FIN],
+     ["try:", "    try:", "        {0}", "        chk(x)", "    except KeyError:", "        {1}", "finally:",
+      "    probe(2, y)", "    {2}"]),
+    ("loop-in-try", [ACT_LOOP, ACT_LOOP],
+     ["try:", "    for _i in (0, 1):", "        {0}", "        chk(x)", "        {1}", "except ValueError:",
+      "    probe(2, y)"]),
 ]
 
 
@@ -752,14 +797,17 @@ def gen_f6() -> list[dict]:
         for t in F6_TYPES:
             ann = TYPES[t][0]
             for acts in itertools.product(*slots):
-                body = [f"y: Union[{ann}, W, None] = None"]
-                for ln in lines:
-                    body.append(ln.format(*acts))
-                body.append("probe(1, y)")
-                body = [ln.replace("if c:", "if x1:").replace("elif x:", "elif x0:").replace("= x", "= x0")
-                        .replace("chk(x)", "chk(x0)").replace("match x:", "match x0:") for ln in body]
-                out.append({"fam": "F6", "key": [name, t] + list(acts), "params": [t, "bool"], "pre": [],
-                            "body": body, "ret": "None"})
+                # `y: Union[...] = None` leaves y at its declared type; the "narrowed" prelude re-assigns it so that
+                # the statement is entered with y narrowed to W (what an assignment inside the statement must widen)
+                for pre_name, prelude in (("declared", []), ("narrowed", ["y = W()"])):
+                    body = [f"y: Union[{ann}, W, None] = None"] + prelude
+                    for ln in lines:
+                        body.append(ln.format(*acts))
+                    body.append("probe(1, y)")
+                    body = [ln.replace("if c:", "if x1:").replace("elif x:", "elif x0:").replace("= x", "= x0")
+                            .replace("chk(x)", "chk(x0)").replace("match x:", "match x0:") for ln in body]
+                    out.append({"fam": "F6", "key": [name, t, pre_name] + list(acts), "params": [t, "bool"],
+                                "pre": [], "body": body, "ret": "None"})
     return out
 
 
